@@ -287,7 +287,10 @@ class Backend(metaclass=ABCMeta):
         original_output = self.output
         self.output = []
         yield
-        output_buffer.write(''.join(self.output))
+        # The buffer holds braces doubled for str.format (see emit_raw); what
+        # is handed out is the text as it was emitted.
+        output_buffer.write(
+            ''.join(self.output).replace('{{', '{').replace('}}', '}'))
         self.output = original_output
 
     def emit_raw(self, s):
